@@ -9,6 +9,9 @@ import OdfModel.GrammarData
 namespace OdfModel.Props.C06
 open OdfModel OdfModel.GrammarApi OdfModel.GrammarData OdfModel.GrammarNamesCodec OdfModel.Generated
 
+/-- interned ids never collide with the wildcard id of the schema semantics -/
+theorem ids_below_any : GrammarTables.nElems < Grammar.ANY ∧ GrammarTables.nAttrs < Grammar.ANY := by decide +kernel
+
 /-- the keyword string of an attribute display name `prefix:local` (bytes), by the model of the
     Python expression -/
 def kwStringOf (name : Nat) : Str := kwChars (localPart (bytes name))
